@@ -16,7 +16,7 @@
 (* are recorded in `bad`, the model adopts the logged state and the rest of *)
 (* the trace is still checked.  The driver maps aspects to properties.      *)
 (***************************************************************************)
-EXTENDS Z80Run, Json, IOUtils
+EXTENDS Z80Run, Z80Block, Json, IOUtils
 
 TraceLog == ndJsonDeserialize(IOEnv.TRACE)
 MaxBad == 40
@@ -256,6 +256,36 @@ EvPoke == IsEv("p") /\ c' = [c EXCEPT !.m = Overlay(Ev.cells, @)] /\ UNCHANGED <
 (* run; cmp relates the final state of an interrupted run to it: same      *)
 (* registers (minus R), flags, IFF state, mode, halted indication, and     *)
 (* memory outside the stack bytes below SP.                                *)
+----------------------------------------------------------------------------
+(* C09: w = a repeating block instruction was stepped until PC left it; the  *)
+(* logged number of Steps, registers, memory diff and port log must equal   *)
+(* the closed form Z80Block!Whole of the state before.                      *)
+EvWhole ==
+  /\ IsEv("w") /\ KeepSK
+  /\ LET lr == RegsOf(Ev.r)
+         ok == IF ~Applicable(c) THEN TRUE
+               ELSE LET w == Whole(c)
+                        k == BlockKind(c)
+                    IN /\ Ev.steps = w.steps /\ lr.PC = w.pc
+                       /\ Mk16(lr.H, lr.L) = w.hl /\ Mk16(lr.D, lr.E) = w.de /\ lr.B = w.b
+                       /\ (k \in {"LDIR", "LDDR", "CPIR", "CPDR"} => Mk16(lr.B, lr.C) = w.bc)
+                       /\ (k \notin {"LDIR", "LDDR", "CPIR", "CPDR"} => lr.C = c.r.C)
+                       /\ lr.A = w.a /\ FlagsAgree(w.f, lr.F, w.u)
+                       /\ lr.R = IncR(c.r.R, 2 * (w.steps % 64))
+                       /\ \A n \in {"A_", "F_", "B_", "C_", "D_", "E_", "H_", "L_", "IXH", "IXL", "IYH", "IYL",
+                                     "SP", "I", "IFF1", "IFF2", "IM"} : lr[n] = c.r[n]
+                       /\ Ev.pio = w.pio
+                       /\ \A i \in 1 .. Len(Ev.md) : Ev.md[i][1] \in w.written /\ Ev.md[i][2] = FinalAt(c, Ev.md[i][1])
+                       /\ Cardinality({a \in w.written : FinalAt(c, a) # Peek(c, a)}) = Len(Ev.md)
+     IN /\ c' = [c EXCEPT !.r = lr, !.m = Overlay(IF Len(Ev.md) > 4096 THEN <<>> ELSE Ev.md, @),
+                          !.nin = @ + Ins(Ev.pio), !.tag = "WHOLE"]
+        /\ IF ok THEN bad' = bad /\ cov' = Bump(cov, IF Applicable(c) THEN "WHOLE " \o BlockKind(c) ELSE "WHOLE n/a")
+           ELSE /\ bad' = IF Len(bad) < MaxBad
+                          THEN Append(bad, [line |-> l, asp |-> {"whole"}, tag |-> "WHOLE " \o BlockKind(c),
+                                            pc |-> Whole(c).pc, f |-> Whole(c).f, u |-> Whole(c).steps])
+                          ELSE bad
+                /\ cov' = Bump(cov, "REJECTED")
+
 EvMark == IsEv("mark") /\ slot' = c /\ UNCHANGED <<c, bad, cov, kf>>
 
 StackDepth == 64
@@ -286,7 +316,7 @@ Done ==
   /\ PrintT(<<"TRACE-RESULT", ToJson([consumed |-> l - 1, bad |-> bad, cov |-> cov, kf |-> kf])>>)
   /\ done' = TRUE /\ UNCHANGED <<l, c, bad, cov, rs, slot, kf>>
 
-TraceNext == EvInit \/ EvStep \/ EvRun \/ EvRaise \/ EvPoke \/ EvMark \/ EvCmp \/ EvPanic \/ EvMirror \/ Done
+TraceNext == EvInit \/ EvStep \/ EvRun \/ EvRaise \/ EvPoke \/ EvMark \/ EvCmp \/ EvWhole \/ EvPanic \/ EvMirror \/ Done
 TraceSpec == TraceInit /\ [][TraceNext]_vars
 
 \* every line was consumed (a line no action can take would stop the run early)
